@@ -442,6 +442,13 @@ func genSingle(seed uint64, prop string, k SingleKnobs) *Plan {
 		}
 	}
 
+	// one-shot suspensions right before a store critical section (ingestion
+	// workers, group run loops, GC goroutines); short, like the other holds on
+	// the ingestion path
+	if ra := rng.Fork("autoholds"); ra.Bool(k.PHolds) {
+		p.Holds = append(p.Holds, AutoHolds(ra, AutoSitesIngest, ra.Range(1, 3), 120, time.Millisecond, 800*time.Millisecond)...)
+	}
+
 	// probes
 	rp := rng.Fork("probes")
 	if rp.Bool(k.PProbe) {
